@@ -52,8 +52,8 @@ pub fn plan(id: &str, tier: &str) -> Option<Plan> {
         "C06" => Some(Plan::new(if _t { 320 } else { 12 }, 1500)),
         "C18" => Some(Plan::new(if _t { 320 } else { 12 }, 1500)),
         "C19" => Some(Plan::new(if _t { 240 } else { 12 }, 1500)),
-        "C08" => Some(Plan::new(if _t { 240 } else { 12 }, 1500)),
-        "C07" => Some(Plan::new(if _t { 240 } else { 12 }, 1500)),
+        "C08" => Some(Plan::new(if _t { 120 } else { 12 }, 1500)),
+        "C07" => Some(Plan::new(if _t { 160 } else { 12 }, 1500)),
         "C05" => Some(Plan::new(if _t { 120 } else { 12 }, 1500)),
         "C10" => Some(Plan::new(if _t { 160 } else { 12 }, 1500)),
         "C16" => Some(Plan::new(if _t { 288 } else { 12 }, 1800)),
